@@ -14,6 +14,7 @@ from ..cfg import CFG, reaching_defs
 from ..engine import (
     AnalysisError,
     FuncNode,
+    _attach_parents,
     Repo,
     ancestors,
     assigned_value,
@@ -29,7 +30,7 @@ from ..engine import (
     stmt_of,
     walk_no_nested,
 )
-from ..normal import clone, nfunc
+from ..normal import clone, nfunc, normalize
 from ..pat import find1, name_of
 from ..report import Report
 from ._orch import ORCH, EXECUTE
@@ -368,6 +369,193 @@ def dict_entry(d: ast.AST, key: str) -> Optional[ast.AST]:
     return None
 
 
+def joined_parts(e: ast.AST) -> Optional[List[ast.AST]]:
+    """The pieces of a string built as `sep.join((a, b, ..))`, `'{}.{}'.format(a, b)` or `'%s.%s' % (a, b)`:
+    constants (merged) and the interpolated expressions, in order; None for any other expression."""
+    pieces: Optional[List[ast.AST]] = None
+    if isinstance(e, ast.Call) and isinstance(e.func, ast.Attribute) and isinstance(e.func.value, ast.Constant) and isinstance(e.func.value.value, str):
+        text = e.func.value.value
+        if e.func.attr == "join" and len(e.args) == 1 and isinstance(e.args[0], (ast.Tuple, ast.List)) and not any(isinstance(x, ast.Starred) for x in e.args[0].elts):
+            pieces = []
+            for i, x in enumerate(e.args[0].elts):
+                if i:
+                    pieces.append(ast.Constant(value=text))
+                pieces.append(x)
+        elif e.func.attr == "format" and not e.keywords and text.count("{}") == len(e.args) and text.replace("{}", "").count("{") == 0:
+            pieces = []
+            for i, chunk in enumerate(text.split("{}")):
+                if i:
+                    pieces.append(e.args[i - 1])
+                pieces.append(ast.Constant(value=chunk))
+    if isinstance(e, ast.BinOp) and isinstance(e.op, ast.Mod) and isinstance(e.left, ast.Constant) and isinstance(e.left.value, str) and isinstance(e.right, ast.Tuple):
+        text = e.left.value
+        if text.count("%s") == len(e.right.elts) and text.replace("%s", "").count("%") == 0:
+            pieces = []
+            for i, chunk in enumerate(text.split("%s")):
+                if i:
+                    pieces.append(e.right.elts[i - 1])
+                pieces.append(ast.Constant(value=chunk))
+    if pieces is None:
+        return None
+    out: List[ast.AST] = []
+    for x in pieces:
+        if isinstance(x, ast.Constant) and isinstance(x.value, str):
+            if not x.value:
+                continue
+            if out and isinstance(out[-1], ast.Constant):
+                out[-1] = ast.Constant(value=out[-1].value + x.value)
+                continue
+        out.append(x)
+    return out
+
+
+def split_parallel_stores(fn: ast.AST) -> ast.AST:
+    """A copy of *fn* in which `a[k], b[k] = x, <constant or name>` is written as consecutive single stores (the later
+    right-hand sides are constants or plain names other than the stored containers, so the order of evaluation is kept)."""
+    new = clone(fn)
+    changed = False
+    for node in ast.walk(new):
+        for field in ("body", "orelse", "finalbody"):
+            block = getattr(node, field, None)
+            if not isinstance(block, list):
+                continue
+            i = 0
+            while i < len(block):
+                st = block[i]
+                if isinstance(st, ast.Assign) and len(st.targets) == 1 and isinstance(st.targets[0], ast.Tuple) and isinstance(st.value, ast.Tuple) and len(st.value.elts) == len(st.targets[0].elts) and all(isinstance(t, ast.Subscript) for t in st.targets[0].elts):
+                    roots = {_root_name(t) for t in st.targets[0].elts}
+                    if all(isinstance(v, ast.Constant) or (isinstance(v, ast.Name) and v.id not in roots) for v in st.value.elts[1:]) and not any(isinstance(v, ast.Starred) for v in st.value.elts):
+                        repl = [ast.copy_location(ast.Assign(targets=[t], value=v), st) for t, v in zip(st.targets[0].elts, st.value.elts)]
+                        block[i:i + 1] = repl
+                        changed = True
+                        i += len(repl)
+                        continue
+                i += 1
+    if not changed:
+        return fn
+    ast.fix_missing_locations(new)
+    _attach_parents(new)
+    new._parent = parent(fn)  # type: ignore[attr-defined]
+    new._normal_of = getattr(fn, "_normal_of", fn)  # type: ignore[attr-defined]
+    return new
+
+
+def every_of(fn: ast.AST, e: Optional[ast.AST]) -> List[ast.AST]:
+    """The expressions *e* can name: *e* itself, or (for a local bound more than once) every expression bound to it."""
+    if e is None:
+        return []
+    if isinstance(e, ast.Name):
+        _single, every = _def_table(fn)
+        if e.id in every:
+            n_stores = sum(1 for n in walk_no_nested(fn) if isinstance(n, ast.Name) and n.id == e.id and isinstance(n.ctx, (ast.Store, ast.Del)))
+            return [expand(fn, v) for v in every[e.id]] if n_stores == len(every[e.id]) else []
+    return [e]
+
+
+def _root_name(e: ast.AST) -> Optional[str]:
+    while isinstance(e, (ast.Subscript, ast.Attribute)):
+        e = e.value
+    return e.id if isinstance(e, ast.Name) else None
+
+
+def dict_values(fn: ast.AST, e: Optional[ast.AST], key: str, _seen: Optional[Set[str]] = None) -> Optional[List[ast.AST]]:
+    """Every expression entry *key* of the mapping denoted by *e* can hold in *fn*.  *e* is a dict display, a
+    ``dict(k=v, ..)`` call, a conditional expression of such, or a local all of whose bindings are such (plus
+    ``local[key] = v`` stores).  None when a binding or an in-place change of the local is not understood; an
+    empty list when the mapping never has the key."""
+    seen = _seen if _seen is not None else set()
+    if e is None:
+        return None
+    if isinstance(e, ast.Dict):
+        if any(k is None or not isinstance(k, ast.Constant) for k in e.keys):
+            return None
+        return [v for k, v in zip(e.keys, e.values) if k.value == key][-1:]
+    if isinstance(e, ast.Call) and isinstance(e.func, ast.Name) and e.func.id == "dict" and not e.args and all(k.arg for k in e.keywords):
+        return [k.value for k in e.keywords if k.arg == key]
+    if isinstance(e, ast.IfExp):
+        a, b = dict_values(fn, e.body, key, seen), dict_values(fn, e.orelse, key, seen)
+        return None if a is None or b is None else a + b
+    if isinstance(e, ast.Name):
+        if e.id in seen or e.id in all_params(fn):
+            return None
+        seen.add(e.id)
+        _single, every = _def_table(fn)
+        defs = every.get(e.id, [])
+        n_stores = sum(1 for n in walk_no_nested(fn) if isinstance(n, ast.Name) and n.id == e.id and isinstance(n.ctx, (ast.Store, ast.Del)))
+        if not defs or n_stores != len(defs):
+            return None  # bound by a loop / with / except / augmented assignment
+        out: List[ast.AST] = []
+        for d in defs:
+            vals = dict_values(fn, d, key, seen)
+            if vals is None:
+                return None
+            out.extend(vals)
+        for n in walk_no_nested(fn):
+            if isinstance(n, (ast.Subscript, ast.Attribute)) and isinstance(n.ctx, (ast.Store, ast.Del)) and _root_name(n.value) == e.id:
+                st = parent(n)
+                if isinstance(n, ast.Subscript) and isinstance(n.ctx, ast.Store) and isinstance(n.value, ast.Name) and isinstance(n.slice, ast.Constant) and isinstance(st, ast.Assign) and n in st.targets:
+                    if n.slice.value == key:
+                        out.append(st.value)
+                else:
+                    return None
+            if isinstance(n, ast.Call) and isinstance(n.func, ast.Attribute) and n.func.attr in _MUT and _root_name(n.func.value) == e.id:
+                return None
+            if isinstance(n, ast.AugAssign) and _root_name(n.target) == e.id:
+                return None
+        return out
+    return None
+
+
+GETTER = "get_processing_parameter_names"
+
+
+def getter_owners(repo: Repo, fn: ast.AST, e: Optional[ast.AST], depth: int = 0) -> Set[str]:
+    """Texts P (locals of *fn* expanded) such that the value of *e* is computed from P's processing-parameter-name
+    getter (``P.get_processing_parameter_names`` / ``getattr(P, 'get_processing_parameter_names', ..)``), read in
+    *fn* itself or in a same-module helper whose result flows into *e* (the helper's parameters are replaced by the
+    arguments of the call)."""
+    out: Set[str] = set()
+    mod = repo.module_of(getattr(fn, "_normal_of", fn))
+    for x in closure(fn, e):
+        for n in ast.walk(x):
+            if isinstance(n, ast.Attribute) and n.attr == GETTER:
+                out.add(txt(expand(fn, n.value)))
+            elif isinstance(n, ast.Call) and call_name(n) == "getattr" and len(n.args) >= 2 and is_const(n.args[1], GETTER):
+                out.add(txt(expand(fn, n.args[0])))
+            elif isinstance(n, ast.Call) and depth < 3 and isinstance(n.func, (ast.Name, ast.Attribute)):
+                try:
+                    targets = repo.resolve_call(mod, n)
+                except Exception:
+                    targets = []
+                targets = [(m, h) for m, h in targets if isinstance(h, ast.FunctionDef)]
+                if len(targets) != 1 or targets[0][0] is not mod:
+                    continue
+                h = targets[0][1]
+                binding = bind_args(n, h)
+                rets = ast.Tuple(elts=[r.value for r in walk_no_nested(h) if isinstance(r, ast.Return) and r.value is not None], ctx=ast.Load())
+                for owner in getter_owners(repo, h, rets, depth + 1):
+                    try:
+                        tree = ast.parse(owner, mode="eval").body
+                    except SyntaxError:
+                        continue
+                    unbound = False
+
+                    class B(ast.NodeTransformer):
+                        def visit_Name(self, nm: ast.Name):
+                            nonlocal unbound
+                            if nm.id in all_params(h) and nm.id not in ("self", "cls"):
+                                if nm.id not in binding:
+                                    unbound = True
+                                    return nm
+                                return expand(fn, binding[nm.id])
+                            return nm
+
+                    new = B().visit(tree)
+                    if not unbound:
+                        out.add(txt(new))
+    return out
+
+
 def run(repo: Repo, R: Report) -> None:
     R.assume(
         "datetime.now(timezone.utc) / utcnow() read the true UTC instant; time.time() does not step backwards within one node (wall-clock steps are outside the quantifier)",
@@ -383,16 +571,19 @@ def run(repo: Repo, R: Report) -> None:
         if not repo.has_module(rel):
             continue
         mod = repo.module(rel)
-        for qn, fn in [(q, n) for q, n in mod.defs.items() if isinstance(n, FuncNode)]:
+        for qn, raw_fn in [(q, n) for q, n in mod.defs.items() if isinstance(n, FuncNode)]:
+            # normal form without inlining: a designator hoisted into a module constant is a 'Z' again
+            try:
+                fn = normalize(repo, mod, raw_fn, inline=False, copyprop="", ifexp=False)
+            except AnalysisError:
+                raise
+            except Exception:
+                fn = raw_fn
             own = [z for z in z_labelled(fn) if next((a for a in ancestors(z) if isinstance(a, FuncNode)), None) is fn]
             for z in own:
                 n_z += 1
                 # the clock may be read in this expression or in a local it uses
-                scope: List[ast.AST] = [z]
-                for nm in {x.id for x in ast.walk(z) if isinstance(x, ast.Name)}:
-                    scope.extend(assigned_value(fn, nm))
-                for nm in list({x.id for s in scope for x in ast.walk(s) if isinstance(x, ast.Name)}):
-                    scope.extend(assigned_value(fn, nm))
+                scope: List[ast.AST] = closure(fn, z)
                 verdicts = [utc_anchored(s) for s in scope]
                 params = {a.arg for a in fn.args.args}
                 from_param = any(isinstance(x, ast.Name) and x.id in params and x.id != "self" for s in scope for x in ast.walk(s))
@@ -409,32 +600,42 @@ def run(repo: Repo, R: Report) -> None:
         raise AnalysisError(f"only {n_z} Z-labelled timestamp producer(s) found (2 confirmed by reading)")
     # SER timing flows from the producers
     for helper, idx in (("_start_timing", 2), ("_end_timing", 0)):
-        f = repo.func(ORCH, O + helper)
-        rets = [n for n in walk_no_nested(f) if isinstance(n, ast.Return)]
-        ok = False
-        for r in rets:
-            if isinstance(r.value, ast.Tuple) and len(r.value.elts) > idx:
-                e = r.value.elts[idx]
-                vals = assigned_value(f, e.id) if isinstance(e, ast.Name) else [e]
-                ok = bool(vals) and all(isinstance(v, ast.Call) and call_attr(v) in producers for v in vals)
+        f = nfunc(repo, ORCH, O + helper, keep=KEEP + tuple(sorted(producers)))
+        rets = [expand(f, n.value) for n in walk_no_nested(f) if isinstance(n, ast.Return)]
+        ok = bool(rets)
+        for rv in rets:
+            e = expand(f, rv.elts[idx]) if isinstance(rv, ast.Tuple) and len(rv.elts) > idx else None
+            vals = every_of(f, e)
+            ok = ok and bool(vals) and all(isinstance(v, ast.Call) and call_attr(v) in producers for v in vals)
         R.check(ok, r_utc, ORCH, O + helper, f"{helper}() iso element comes from a UTC producer", "SER started_at/finished_at is not produced by the UTC timestamp helper", f.lineno)
     ex = repo.func(ORCH, EXECUTE)
+    _s_ex, every_ex = _def_table(ex)
+
+    def unpack_of(v: Optional[ast.AST], helper: str, pos: int, exclusive: bool = True) -> bool:
+        """Every binding of local *v* in execute() is element *pos* of a `<helper>()` result (not exclusive:
+        or a constant placeholder)."""
+        defs = [expand(ex, d) for d in every_ex.get(v.id, [])] if isinstance(v, ast.Name) else []
+        good = [d for d in defs if isinstance(d, ast.Subscript) and isinstance(d.value, ast.Call) and call_attr(d.value) == helper and is_const(d.slice, pos)]
+        inert = [d for d in defs if isinstance(d, ast.Constant)]
+        return bool(good) and len(good) + (0 if exclusive else len(inert)) == len(defs)
+
+    def timing_entry_ok(c: ast.Call, key: str, helper: str, pos: int, exclusive: bool) -> bool:
+        """Entry *key* of the `timing` mapping handed to the record builder (a display or a local naming one) is,
+        whenever present, element *pos* of a `<helper>()` result."""
+        vals = dict_values(ex, kwarg(c, "timing"), key)
+        return bool(vals) and all(unpack_of(v, helper, pos, exclusive) for v in vals)
+
     for c in calls_in(ex):
         if call_attr(c) == "_make_ser_record":
-            t = kwarg(c, "timing")
-            tk = {k.value: v for k, v in zip(t.keys, t.values) if isinstance(k, ast.Constant)} if isinstance(t, ast.Dict) else {}
-            ok = True
-            for key, helper, pos in (("started_at", "_start_timing", 2), ("finished_at", "_end_timing", 0)):
-                v = tk.get(key)
-                name = dotted_name(v)
-                defs = [n for n in walk_no_nested(ex) if isinstance(n, ast.Assign) and isinstance(n.targets[0], ast.Tuple) and any(dotted_name(e) == name for e in n.targets[0].elts) and isinstance(n.value, ast.Call)]
-                good = [d for d in defs if call_attr(d.value) == helper and [dotted_name(e) for e in d.targets[0].elts].index(name) == pos]
-                ok = ok and bool(good) and len(good) == len(defs)
+            ok = timing_entry_ok(c, "started_at", "_start_timing", 2, False) and timing_entry_ok(c, "finished_at", "_end_timing", 0, True)
             R.check(ok, r_utc, ORCH, EXECUTE, f"timing of SER ({getattr(kwarg(c, 'status'), 'value', '?')}) from _start_timing/_end_timing", "SER timing strings do not come from the timing helpers", c.lineno)
     for qn in ("JsonlTraceDriver.on_pipeline_start", "JsonlTraceDriver.on_pipeline_end", "JsonlTraceDriver.on_run_space_start", "JsonlTraceDriver.on_run_space_end"):
         f = repo.func(JSONL, qn)
         ts = [v for n in walk_no_nested(f) if isinstance(n, ast.Dict) for k, v in zip(n.keys, n.values) if isinstance(k, ast.Constant) and k.value == "timestamp"]
-        ok = bool(ts) and all(isinstance(v, ast.Call) and call_attr(v) in producers for v in ts)
+        ts += [n.value for n in walk_no_nested(f) if isinstance(n, ast.Assign) and any(isinstance(t, ast.Subscript) and is_const(t.slice, "timestamp") for t in n.targets)]
+        ts += [k.value for c in calls_in(f) if call_name(c) == "dict" for k in c.keywords if k.arg == "timestamp"]
+        vals = [x for v in ts for x in every_of(f, expand(f, v))]
+        ok = bool(ts) and len(vals) >= len(ts) and all(isinstance(v, ast.Call) and call_attr(v) in producers for v in vals)
         R.check(ok, r_utc, JSONL, qn, "record.timestamp from the UTC producer", "lifecycle record timestamp is not produced by the UTC timestamp helper", f.lineno)
 
     # ------------------------------------------------------------------ roles in execute()
@@ -543,6 +744,8 @@ def run(repo: Repo, R: Report) -> None:
         raise AnalysisError("DeltaCollector.compute: pre/post parameters vanished")
     PRE_P, POST_P = cpp[0], cpp[1]
     prov = [k.value for c in calls_in(ex) if call_attr(c) == "SERHooks" for k in c.keywords if k.arg == "context_delta_provider"]
+    if prov and isinstance(prov[0], ast.Name) and isinstance(_def_table(ex)[0].get(prov[0].id), ast.Lambda):
+        prov = [_def_table(ex)[0][prov[0].id]]  # a local that names the lambda (bound once)
     prov_body = prov[0].body if prov and isinstance(prov[0], ast.Lambda) else None
     if prov and isinstance(prov[0], ast.Name):
         pdef = next((n for n in ast.walk(ex) if isinstance(n, FuncNode) and n is not ex and n.name == prov[0].id), None)
@@ -556,7 +759,7 @@ def run(repo: Repo, R: Report) -> None:
     # ------------------------------------------------------------------ D2 provenance
     r_prov = R.rule("C07-D2-parameter-provenance", "the SER labels every processing parameter with the channel the run-time chain picks: node config, else context (for every processing parameter name, exactly when the key is in the pre-node context), else the processor's declared default; later steps never overwrite earlier ones; values and labels reach processor.parameters / parameter_sources unswapped", 10)
     RPQ = O + "_resolve_params_with_sources"
-    rp = nfunc(repo, ORCH, RPQ, keep=KEEP, loops=False)
+    rp = split_parallel_stores(nfunc(repo, ORCH, RPQ, keep=KEEP, loops=False))
     rpp = pos_params(rp)
     if len(rpp) < 3:
         raise AnalysisError("_resolve_params_with_sources: parameters vanished")
@@ -573,10 +776,15 @@ def run(repo: Repo, R: Report) -> None:
         return None
 
     lab_stores = [n for n in walk_no_nested(rp) if sub_store(n, SRC) is not None]
-    mislabel = [n for n in walk_no_nested(rp) if sub_store(n, VAL) is not None and isinstance(n.value, ast.Constant) and n.value.value in ("node", "context", "default")]
-    R.check(bool(lab_stores) and all(isinstance(s.value, ast.Constant) and s.value.value in ("node", "context", "default") for s in lab_stores) and not mislabel, r_prov, ORCH, RPQ, "return <values>, <sources>: the second map receives the channel labels", "the returned pair is not (values, channel labels in {node, context, default})", rp.lineno)
+
+    def label_of(st: ast.AST) -> Optional[str]:
+        v = expand(rp, st.value)
+        return v.value if isinstance(v, ast.Constant) and v.value in ("node", "context", "default") else None
+
+    mislabel = [n for n in walk_no_nested(rp) if sub_store(n, VAL) is not None and label_of(n) is not None]
+    R.check(bool(lab_stores) and all(label_of(s) is not None for s in lab_stores) and not mislabel, r_prov, ORCH, RPQ, "return <values>, <sources>: the second map receives the channel labels", "the returned pair is not (values, channel labels in {node, context, default})", rp.lineno)
     top = {id(x): i for i, st in enumerate(rp.body) for x in ast.walk(st)}
-    order = sorted(((top.get(id(s), 0), s.lineno, s.value.value if isinstance(s.value, ast.Constant) else None, s) for s in lab_stores), key=lambda t: t[:2])
+    order = sorted(((top.get(id(s), 0), s.lineno, label_of(s), s) for s in lab_stores), key=lambda t: t[:2])
     labels = [o[2] for o in order]
     first_ctx = labels.index("context") if "context" in labels else -1
     last_ctx = max((i for i, l in enumerate(labels) if l == "context"), default=-1)
@@ -600,13 +808,14 @@ def run(repo: Repo, R: Report) -> None:
             extra = [c for c in conds if c not in a_first and c not in a_ctx]
             R.check(not extra, r_prov, ORCH, RPQ, "context label [exactly when present]", f"the context step is narrowed by `{' and '.join(extra)[:90]}`: the run-time chain takes every key that is in the context (whatever its value), so such a parameter is passed from the context but recorded with another source or not at all", s.lineno)
             lp = next((a for a in ancestors(s) if isinstance(a, ast.For)), None)
-            covers = lp is not None and "get_processing_parameter_names" in closure_text(rp, lp.iter)
+            # the loop domain is computed from the getter of this node's processor, read here or in a helper
+            covers = lp is not None and f"{NODE_P}.processor" in getter_owners(repo, rp, lp.iter)
             R.check(covers, r_prov, ORCH, RPQ, "context label [domain]", "the context step does not range over all processing parameter names: a defaulted parameter overridden by context is never labelled `context` (and is missing from processor.parameters)", s.lineno)
             reads = {f"{CTX_P}[{K}]", f"{CTX_P}.get({K})"}
             ok = bool(vstores) and all(any(ast.unparse(x) in reads for x in ast.walk(expand(rp, v.value))) for v in vstores)
             R.check(ok, r_prov, ORCH, RPQ, "context value = <pre-node view>[k]", "the value recorded for a context-sourced parameter is not read from the pre-node context", s.lineno)
         if lab == "default":
-            if any(f"self._parameter_defaults({NODE_P}.processor)" in closure_text(rp, v.value) for v in vstores):
+            if any(f"self._parameter_defaults({NODE_P}.processor)" in " ;; ".join(txt(expand(rp, x)) for x in closure(rp, v.value)) for v in vstores):
                 default_from_table = True
     R.check(default_from_table, r_prov, ORCH, RPQ, "defaults from _parameter_defaults(node.processor)", "no default step reads the processor's declared parameter table", rp.lineno)
     # call site passes this node and its pre-node snapshot; the pair reaches the record unswapped
@@ -618,14 +827,12 @@ def run(repo: Repo, R: Report) -> None:
     ser_calls = [c for c in calls_in(mk) if call_attr(c) == "SERRecord"]
     proc = expand(mk, kwarg(ser_calls[0], "processor")) if ser_calls else None
     p_par, p_src = dotted_name(dict_entry(proc, "parameters")), dotted_name(dict_entry(proc, "parameter_sources"))
-    _s_ex, every_ex = _def_table(ex)
     for c in calls_in(ex):
         if call_attr(c) == "_make_ser_record":
             ok = bool(p_par) and bool(p_src) and p_par in all_params(mk) and p_src in all_params(mk)
             for pname, pos in ((p_par, 0), (p_src, 1)):
-                v = kwarg(c, pname) if pname else None
-                defs = every_ex.get(v.id, []) if isinstance(v, ast.Name) else []
-                ok = ok and bool(defs) and all(isinstance(d, ast.Subscript) and isinstance(d.value, ast.Call) and call_attr(d.value) == "_resolve_params_with_sources" and is_const(d.slice, pos) for d in defs)
+                v = bind_args(c, mk).get(pname) if pname else None
+                ok = ok and unpack_of(v, "_resolve_params_with_sources", pos)
             R.check(ok, r_prov, ORCH, EXECUTE, f"SER ({getattr(kwarg(c, 'status'), 'value', '?')}): processor.parameters / parameter_sources = the resolved (values, sources) pair", "processor.parameters / parameter_sources are not the (values, sources) pair reconstructed for this node", c.lineno)
 
     # ------------------------------------------------------------------ D3 checks
@@ -651,8 +858,10 @@ def run(repo: Repo, R: Report) -> None:
         neg = False
         if isinstance(t, ast.UnaryOp) and isinstance(t.op, ast.Not):
             t, neg = t.operand, True
-        elif isinstance(t, ast.Compare) and len(t.ops) == 1 and isinstance(t.ops[0], (ast.Eq, ast.NotEq)) and isinstance(t.left, ast.Call) and call_name(t.left) == "len" and is_const(t.comparators[0], 0):
+        elif isinstance(t, ast.Compare) and len(t.ops) == 1 and isinstance(t.ops[0], (ast.Eq, ast.NotEq, ast.Gt)) and isinstance(t.left, ast.Call) and call_name(t.left) == "len" and len(t.left.args) == 1 and is_const(t.comparators[0], 0):
             t, neg = t.left.args[0], isinstance(t.ops[0], ast.Eq)
+        if isinstance(t, ast.Call) and call_name(t) == "bool" and len(t.args) == 1:
+            t = t.args[0]
         if (neg and (a, b) == ("PASS", "FAIL")) or (not neg and (a, b) == ("FAIL", "PASS")):
             return t
         return None
@@ -680,8 +889,9 @@ def run(repo: Repo, R: Report) -> None:
     want = ("diff", ("or", frozenset({("K", "created"), ("K", "updated")})), ("K", "post-view"))
     got = kterm(m_post, post_atom) if m_post is not None else ("?", "")
     R.check(got == want, r_chk, ORCH, O + "_build_post_checks", "missing = (created | updated) - keys of the context view", f"post-check `missing` is not (created ∪ updated) minus (keys of the post snapshot): it is {kshow(got)[:110]}", post.lineno)
-    xr = [r.value for r in walk_no_nested(xdl) if isinstance(r, ast.Return) and isinstance(r.value, ast.Tuple) and len(r.value.elts) == 2]
-    ok = bool(xr)
+    xr_all = [x for r in walk_no_nested(xdl) if isinstance(r, ast.Return) for x in every_of(xdl, expand(xdl, r.value))]
+    xr = [x for x in xr_all if isinstance(x, ast.Tuple) and len(x.elts) == 2]
+    ok = bool(xr) and len(xr) == len(xr_all)
     for tup in xr:
         c0, c1 = closure_text(xdl, tup.elts[0]), closure_text(xdl, tup.elts[1])
         ok = ok and "created" in c0 and "updated" not in c0 and "updated" in c1 and "created" not in c1
@@ -691,28 +901,66 @@ def run(repo: Repo, R: Report) -> None:
     if len(tp) < 3:
         raise AnalysisError("_type_check_entry: parameters vanished")
     EXP_P, VAL_P = tp[1], tp[2]
-    ret_d = [expand(tce, r.value) for r in walk_no_nested(tce) if isinstance(r, ast.Return)]
-    res = dict_entry(ret_d[0], "result") if len(ret_d) == 1 else None
+    # every way the entry's result gets its value, with the conditions under which that value is the final one
+    g_t = CFG(tce)
+    _s_t, every_t = _def_table(tce)
+    leaves: Optional[List[Tuple[object, List[ast.AST]]]] = []
+
+    def later_store(name: str, d_id: int, at: int) -> bool:
+        """Another binding of *name* can execute after node *d_id* and before *at*."""
+        seen = g_t.reach([t for t, _l in g_t.succ[d_id]], blocked={at})
+        return any(o.id in seen and o.id != d_id for o in g_t.nodes if o.ast is not None and o.kind == "stmt" and isinstance(o.ast, (ast.Assign, ast.AnnAssign, ast.AugAssign)) and any(isinstance(x, ast.Name) and x.id == name and isinstance(x.ctx, ast.Store) for x in ast.walk(o.ast)))
+
+    def collect(e: Optional[ast.AST], conds: List[ast.AST], at: int, depth: int = 0) -> None:
+        nonlocal leaves
+        if leaves is None:
+            return
+        if isinstance(e, ast.Constant):
+            leaves.append((e.value, conds))
+        elif isinstance(e, ast.IfExp):
+            collect(e.body, conds + conjuncts(expand(tce, e.test), True), at, depth)
+            collect(e.orelse, conds + conjuncts(expand(tce, e.test), False), at, depth)
+        elif isinstance(e, ast.Name) and depth < 4:
+            defs = reaching_defs(g_t, e.id, at)
+            if not defs:
+                leaves = None
+                return
+            for d in defs:
+                a = d.ast
+                plain = (isinstance(a, ast.Assign) and len(a.targets) == 1 and isinstance(a.targets[0], ast.Name)) or (isinstance(a, ast.AnnAssign) and isinstance(a.target, ast.Name) and a.value is not None)
+                if not plain:
+                    leaves = None
+                    return
+                v = expand(tce, a.value)
+                if isinstance(v, ast.Constant) and v.value == "PASS":
+                    leaves.append(("PASS", []))  # the conditions of a PASS leaf are never used
+                    continue
+                if later_store(e.id, d.id, at):
+                    leaves = None  # a FAIL that can be overwritten: the final value is not decided by this store alone
+                    return
+                collect(v, conds + dominating_conditions(g_t, tce, d.id), d.id, depth + 1)
+        else:
+            leaves = None
+
+    n_ret = 0
+    for r in [r for r in walk_no_nested(tce) if isinstance(r, ast.Return)]:
+        n_ret += 1
+        rid = g_t.nodes_for(r)
+        d = expand(tce, r.value)
+        if not rid or not isinstance(d, ast.Dict):
+            leaves = None
+            break
+        collect(expand(tce, dict_entry(d, "result")), dominating_conditions(g_t, tce, rid[0]), rid[0])
     nexp = f"self._normalize_expected({EXP_P})"
     want_conds = {f"{nexp} is not None", f"not any((isinstance({VAL_P}, _k0) for _k0 in {nexp}))"}
     alt = {f"not isinstance({VAL_P}, {nexp})": f"not any((isinstance({VAL_P}, _k0) for _k0 in {nexp}))", f"{nexp}": f"{nexp} is not None"}
     fail_conds: Optional[Set[str]] = None
-    if isinstance(res, ast.Name):
-        g_t = CFG(tce)
-        _s, every_t = _def_table(tce)
-        vals = every_t.get(res.id, [])
-        stores = [n for n in walk_no_nested(tce) if isinstance(n, (ast.Assign, ast.AnnAssign)) and any(isinstance(t, ast.Name) and t.id == res.id for t in (n.targets if isinstance(n, ast.Assign) else [n.target]))]
-        fails = [s for s in stores if is_const(s.value, "FAIL")]
-        passes = [s for s in stores if is_const(s.value, "PASS")]
-        if len(fails) == 1 and len(passes) == 1 and len(stores) == 2 and len(vals) == 2:
-            pc = dominating_conditions(g_t, tce, g_t.nodes_for(passes[0])[0])
-            if not pc and passes[0].lineno < fails[0].lineno:
-                fail_conds = {txt(c) for c in dominating_conditions(g_t, tce, g_t.nodes_for(fails[0])[0])}
-    elif isinstance(res, ast.IfExp) and isinstance(res.body, ast.Constant) and isinstance(res.orelse, ast.Constant):
-        if (res.body.value, res.orelse.value) == ("FAIL", "PASS"):
-            fail_conds = {txt(c) for c in conjuncts(res.test, True)}
-        elif (res.body.value, res.orelse.value) == ("PASS", "FAIL"):
-            fail_conds = {txt(c) for c in conjuncts(res.test, False)}
+    if leaves is not None and n_ret and all(v in ("PASS", "FAIL") for v, _c in leaves) and any(v == "PASS" for v, _c in leaves):
+        fails = [c for v, c in leaves if v == "FAIL"]
+        if len(fails) == 1:
+            fail_conds = {txt(c) for c in fails[0]}
+        elif not fails:
+            fail_conds = set()
     if fail_conds is not None:
         fail_conds = {alt.get(c, c) for c in fail_conds}
     R.check(fail_conds == want_conds, r_chk, ORCH, O + "_type_check_entry", "FAIL iff a type is declared and not any(isinstance(value, t))", f"type check does not report FAIL exactly when the value is not an instance of the declared type (FAIL under: {sorted(fail_conds) if fail_conds is not None else 'unrecognised shape'})"[:230], tce.lineno)
@@ -768,65 +1016,97 @@ def run(repo: Repo, R: Report) -> None:
     recv_defs = every_ex.get(recv.id, []) if isinstance(recv, ast.Name) else []
     ok = is_snapshot(pb.get(POST_P)) and bool(recv_defs) and all(isinstance(v, ast.Call) and call_attr(v) == "DeltaCollector" for v in recv_defs)
     R.check(ok, r_d, ORCH, EXECUTE, "delta = DeltaCollector.compute(<pre-node view>, snapshot(context) at call time)", "the delta is not the diff between the pre-node snapshot and the post-node context", ex.lineno)
-    pcalls = [c for c in calls_in(ex) if call_attr(c) == "context_delta_provider"]
+    def is_provider_call(c: ast.Call) -> bool:
+        """`<hooks>.context_delta_provider()` or a call of a local that names that attribute on every path."""
+        if call_attr(c) == "context_delta_provider":
+            return True
+        if isinstance(c.func, ast.Name) and use_node(c) is not None:
+            defs = reaching_defs(g, c.func.id, use_node(c))
+            vals = [getattr(d.ast, "value", None) if isinstance(d.ast, (ast.Assign, ast.AnnAssign)) and not isinstance(getattr(d.ast, "targets", [None])[0], (ast.Tuple, ast.List)) else None for d in defs]
+            return bool(vals) and all(isinstance(v, ast.Attribute) and v.attr == "context_delta_provider" for v in vals)
+        return False
+
+    pcalls = [c for c in calls_in(ex) if is_provider_call(c)]
     ok = bool(pcalls) and all(after_run(use_node(c)) and (in_handler(c) or ctx_current(use_node(c))) for c in pcalls)
     R.check(ok, r_d, ORCH, EXECUTE, "the delta provider is called after the node ran (success path: after the returned context is bound)", "the context delta is computed before the node ran or from the context object the node did not return", ex.lineno)
     pre_def = [n for n in g.nodes if n.ast is not None and n.kind == "stmt" and isinstance(n.ast, (ast.Assign, ast.AnnAssign)) and any(isinstance(x, ast.Name) and x.id == PRE and isinstance(x.ctx, ast.Store) for x in ast.walk(n.ast))]
     ok = len(pre_def) == 1 and is_snapshot(getattr(pre_def[0].ast, "value", None)) and g.dominated_by_node(sub.id, pre_def[0].id) and before_run(pre_def[0].id) and any(a is loop for a in ancestors(pre_def[0].ast))
     R.check(ok, r_d, ORCH, EXECUTE, "<pre-node view> = snapshot(context) inside the loop, before the node runs", "the pre snapshot is not taken per node before it runs", ex.lineno)
     snap = repo.func(ORCH, O + "_context_snapshot")
-    rets = [n for n in walk_no_nested(snap) if isinstance(n, ast.Return)]
-    ok = bool(rets) and all((isinstance(r.value, ast.Call) and call_attr(r.value) == "dict") or (isinstance(r.value, ast.Dict) and not r.value.keys) for r in rets)
+    def fresh_mapping(e: Optional[ast.AST]) -> bool:
+        if isinstance(e, ast.IfExp):
+            return fresh_mapping(e.body) and fresh_mapping(e.orelse)
+        if isinstance(e, ast.Call) and isinstance(e.func, ast.Attribute) and e.func.attr == "copy" and not e.args:
+            return True
+        return (isinstance(e, ast.Call) and call_name(e) == "dict") or (isinstance(e, ast.Dict) and (not e.keys or all(k is None for k in e.keys))) or isinstance(e, ast.DictComp)
+
+    rets = [x for n in walk_no_nested(snap) if isinstance(n, ast.Return) for x in (every_of(snap, expand(snap, n.value)) or [n.value])]
+    ok = bool(rets) and all(fresh_mapping(r) for r in rets)
     R.check(ok, r_d, ORCH, O + "_context_snapshot", "every return is dict(...) or {}", "a snapshot aliases the live context: pre and post views are the same object and the delta is always empty", snap.lineno)
 
     # ------------------------------------------------------------------ D5 digests
     r_dig = R.rule("C07-D5-digests", "input and output data digests come from one helper on the value itself; pre/post context digests are computed from the respective snapshot passed to that call (never copied between entries); the post snapshot is taken after the node ran", 8)
+    def digest_text(fn: ast.AST) -> str:
+        """Every value stored under the key 'sha256' in *fn* (subscript store or dict display entry), locals expanded."""
+        vals = [s.value for s in ast.walk(fn) if isinstance(s, ast.Assign) and any(isinstance(t, ast.Subscript) and is_const(t.slice, "sha256") for t in s.targets)]
+        vals += [v for d in ast.walk(fn) if isinstance(d, ast.Dict) for k, v in zip(d.keys, d.values) if is_const(k, "sha256")]
+        return " ;; ".join(txt(expand(fn, x)) for v in vals for x in closure(fn, v))
+
     ds = repo.func(ORCH, O + "_data_summary")
     dsp = pos_params(ds)
-    R.check(bool(dsp) and f"sha256_bytes(serialize({dsp[0]}))" in closure_text(ds, ast.Tuple(elts=[s.value for s in ast.walk(ds) if isinstance(s, ast.Assign) and any(isinstance(t, ast.Subscript) and is_const(t.slice, "sha256") for t in s.targets)], ctx=ast.Load())), r_dig, ORCH, O + "_data_summary", "sha256 = sha256_bytes(serialize(data))", "data digest is not the hash of the serialised value", ds.lineno)
+    R.check(bool(dsp) and f"sha256_bytes(serialize({dsp[0]}))" in digest_text(ds), r_dig, ORCH, O + "_data_summary", "sha256 = sha256_bytes(serialize(data))", "data digest is not the hash of the serialised value", ds.lineno)
     cs = repo.func(ORCH, O + "_context_summary")
     csp = pos_params(cs)
-    R.check(bool(csp) and f"sha256_bytes(canonical_json_bytes({csp[0]}))" in closure_text(cs, ast.Tuple(elts=[s.value for s in ast.walk(cs) if isinstance(s, ast.Assign) and any(isinstance(t, ast.Subscript) and is_const(t.slice, "sha256") for t in s.targets)], ctx=ast.Load())), r_dig, ORCH, O + "_context_summary", "sha256 = sha256_bytes(canonical_json_bytes(context_view))", "context digest is not the hash of the canonical JSON of the snapshot", cs.lineno)
+    R.check(bool(csp) and f"sha256_bytes(canonical_json_bytes({csp[0]}))" in digest_text(cs), r_dig, ORCH, O + "_context_summary", "sha256 = sha256_bytes(canonical_json_bytes(context_view))", "context digest is not the hash of the canonical JSON of the snapshot", cs.lineno)
     cj = repo.func(UTILS, "canonical_json_bytes")
     dumps = [c for c in calls_in(cj) if call_name(c) == "json.dumps"]
     ok = bool(dumps) and isinstance(kwarg(dumps[0], "sort_keys"), ast.Constant) and kwarg(dumps[0], "sort_keys").value is True
     R.check(ok, r_dig, UTILS, "canonical_json_bytes", "json.dumps(..., sort_keys=True)", "canonical JSON depends on mapping order: equal content gives different digests", cj.lineno)
     summ_fns = {}
+    summ_roles: Dict[str, Dict[str, Optional[str]]] = {}  # helper -> producer -> the parameter it summarises
     for helper, keys in (("_init_summaries", {"input_data": "_data_summary", "pre_context": "_context_summary"}), ("_augment_output_summaries", {"output_data": "_data_summary", "post_context": "_context_summary"})):
         f = repo.func(ORCH, O + helper)
         summ_fns[helper] = f
         params = [a.arg for a in f.args.args]
+        summ_roles[helper] = {}
         for key, producer in keys.items():
             stores = [n for n in ast.walk(f) if isinstance(n, ast.Assign) and any(isinstance(t, ast.Subscript) and isinstance(t.slice, ast.Constant) and t.slice.value == key for t in n.targets)]
             ok = bool(stores)
             for s in stores:
                 vals = assigned_value(f, s.value.id) if isinstance(s.value, ast.Name) else [s.value]
-                want_arg = "data" if producer == "_data_summary" else "context_view"
-                ok = ok and bool(vals) and all(isinstance(v, ast.Call) and call_attr(v) == producer and v.args and dotted_name(v.args[0]) == want_arg and want_arg in params for v in vals)
+                # the summarised value is a parameter of this helper (which one: by role, checked at the call site)
+                prod_fn = repo.func(ORCH, O + producer)
+                first = (pos_params(prod_fn) or [""])[0]
+                args0 = {dotted_name(expand(f, bind_args(v, prod_fn)[first])) if isinstance(v, ast.Call) and first in bind_args(v, prod_fn) else None for v in vals}
+                want_arg = next(iter(args0)) if len(args0) == 1 else None
+                summ_roles[helper][producer] = want_arg if want_arg in params and want_arg != "self" else None
+                ok = ok and bool(vals) and want_arg is not None and want_arg in params and want_arg != "self" and all(isinstance(v, ast.Call) and call_attr(v) == producer for v in vals)
                 # only gated on the summary being non-empty
                 for a in ancestors(s):
                     if isinstance(a, ast.If) and a is not f:
-                        tn = {x.id for x in ast.walk(a.test) if isinstance(x, ast.Name)}
+                        tn = {x.id for x in ast.walk(a.test) if isinstance(x, ast.Name)} - {"len", "bool"}
                         ok = ok and tn <= {dotted_name(s.value) or ""}
             R.check(ok, r_dig, ORCH, O + helper, f"summaries[{key!r}] = {producer}(this call's value)", f"summaries[{key!r}] is not (always) recomputed from the value passed to this call: stale or copied digests", f.lineno)
     for c in calls_in(ex):
         if call_attr(c) == "_init_summaries":
             b = bind_args(c, summ_fns["_init_summaries"])
             use = use_node(c)
-            ok = dotted_name(b.get("data")) == DATA and dotted_name(b.get("context_view")) == PRE and before_run(use)
+            roles = summ_roles["_init_summaries"]
+            ok = dotted_name(b.get(roles.get("_data_summary") or "")) == DATA and dotted_name(b.get(roles.get("_context_summary") or "")) == PRE and before_run(use)
             R.check(ok, r_dig, ORCH, EXECUTE, "_init_summaries(<input data>, <pre-node view>, ...)", "input summaries are not taken from the input data and pre snapshot", c.lineno)
         if call_attr(c) == "_augment_output_summaries":
             b = bind_args(c, summ_fns["_augment_output_summaries"])
-            okv, why = post_view(c, b.get("context_view"))
-            R.check(okv and output_data(c, b.get("data")), r_dig, ORCH, EXECUTE, f"_augment_output_summaries(.., <output data>, <post-node view>, ..) ({'failure handler' if in_handler(c) else 'success path'})", "output summaries are not taken from the output data and a context snapshot taken after the node ran" + (f": {why}" if why else ""), c.lineno)
+            roles = summ_roles["_augment_output_summaries"]
+            okv, why = post_view(c, b.get(roles.get("_context_summary") or ""))
+            R.check(okv and output_data(c, b.get(roles.get("_data_summary") or "")), r_dig, ORCH, EXECUTE, f"_augment_output_summaries(.., <output data>, <post-node view>, ..) ({'failure handler' if in_handler(c) else 'success path'})", "output summaries are not taken from the output data and a context snapshot taken after the node ran" + (f": {why}" if why else ""), c.lineno)
 
     # ------------------------------------------------------------------ D6 durations, D7 ref
     r_misc = R.rule("C07-D6D7-duration-and-ref", "wall_ms/cpu_ms = int((now - start) * 1000) with start read by _start_timing; processor.ref is module.qualname of node.processor's class for the node that ran", 9)
     et = nfunc(repo, ORCH, O + "_end_timing", keep=KEEP)
     st = nfunc(repo, ORCH, O + "_start_timing", keep=KEEP)
     etp = pos_params(et)
-    et_ret = [r.value for r in walk_no_nested(et) if isinstance(r, ast.Return) and isinstance(r.value, ast.Tuple) and len(r.value.elts) == 3]
-    st_ret = [r.value for r in walk_no_nested(st) if isinstance(r, ast.Return) and isinstance(r.value, ast.Tuple) and len(r.value.elts) == 3]
+    et_ret = [v for v in (expand(et, r.value) for r in walk_no_nested(et) if isinstance(r, ast.Return)) if isinstance(v, ast.Tuple) and len(v.elts) == 3]
+    st_ret = [v for v in (expand(st, r.value) for r in walk_no_nested(st) if isinstance(r, ast.Return)) if isinstance(v, ast.Tuple) and len(v.elts) == 3]
     if len(etp) < 2 or len(et_ret) != 1 or len(st_ret) != 1:
         raise AnalysisError("_start_timing/_end_timing: 3-tuple returns or start parameters vanished")
     for label, idx, clock, pidx in (("wall_ms", 1, "time.time", 0), ("cpu_ms", 2, "time.process_time", 1)):
@@ -837,20 +1117,13 @@ def run(repo: Repo, R: Report) -> None:
         sv = expand(st, st_ret[0].elts[pidx])
         R.check(isinstance(sv, ast.Call) and call_name(sv) == clock and not sv.args, r_misc, ORCH, O + "_start_timing", f"start[{pidx}] = {clock}()", f"the start value for {label} is not read from {clock}()", st.lineno)
 
-    def unpack_of(v: Optional[ast.AST], helper: str, pos: int, exclusive: bool = True) -> bool:
-        defs = every_ex.get(v.id, []) if isinstance(v, ast.Name) else []
-        good = [d for d in defs if isinstance(d, ast.Subscript) and isinstance(d.value, ast.Call) and call_attr(d.value) == helper and is_const(d.slice, pos)]
-        inert = [d for d in defs if isinstance(d, ast.Constant)]
-        return bool(good) and len(good) + (0 if exclusive else len(inert)) == len(defs)
-
     for c in calls_in(ex):
         if call_attr(c) == "_end_timing":
             b = bind_args(c, et)
             ok = unpack_of(b.get(etp[0]), "_start_timing", 0, exclusive=False) and unpack_of(b.get(etp[1]), "_start_timing", 1, exclusive=False)
             R.check(ok, r_misc, ORCH, EXECUTE, f"_end_timing(<start wall>, <start cpu>) from _start_timing() ({'failure handler' if in_handler(c) else 'success path'})", "durations are not measured from the values read by _start_timing()", c.lineno)
         if call_attr(c) == "_make_ser_record":
-            t = kwarg(c, "timing")
-            ok = isinstance(t, ast.Dict) and unpack_of(dict_entry(t, "wall_ms"), "_end_timing", 1) and unpack_of(dict_entry(t, "cpu_ms"), "_end_timing", 2)
+            ok = timing_entry_ok(c, "wall_ms", "_end_timing", 1, True) and timing_entry_ok(c, "cpu_ms", "_end_timing", 2, True)
             R.check(ok, r_misc, ORCH, EXECUTE, f"SER ({getattr(kwarg(c, 'status'), 'value', '?')}): timing.wall_ms / cpu_ms from _end_timing()", "SER durations do not come from _end_timing()", c.lineno)
     node_kw = {kw.arg for c in calls_in(ex) if call_attr(c) == "_make_ser_record" for kw in c.keywords if dotted_name(kw.value) == NODE}
     NK = next(iter(node_kw)) if len(node_kw) == 1 else None
@@ -860,6 +1133,9 @@ def run(repo: Repo, R: Report) -> None:
     def names_class(e: Optional[ast.AST]) -> bool:
         if e is None or NK is None:
             return False
+        parts = joined_parts(e)
+        if parts is not None:
+            e = ast.JoinedStr(values=[x if isinstance(x, ast.Constant) else ast.FormattedValue(value=x, conversion=-1, format_spec=None) for x in parts])
         s = ast.unparse(e).replace(f"type({NK}.processor)", f"{NK}.processor.__class__")
         return s in (f"f'{{{NK}.processor.__class__.__module__}}.{{{NK}.processor.__class__.__qualname__}}'", f"{NK}.processor.__class__.__module__ + '.' + {NK}.processor.__class__.__qualname__")
 
